@@ -41,7 +41,7 @@ ENGINES = [
 
 NOTES = (
     "Static analysis only: every check parses / type-checks /repo's working tree on each run and reports constructs (file, function, template, call site, MIR site). "
-    "Witnesses under witnesses/ demonstrate findings against the real macro; they decide nothing. seeded/ holds 197 independently written regressions (five rounds); neutral/ holds 160 independently written behaviour-preserving refactorings (four rounds) and 111 mechanical ones that every check must stay silent on (bin/neutralsweep) with bin/seedsweep to replay them; neutral/ holds behaviour-preserving edits that must stay silent (bin/neutralsweep)."
+    "Witnesses under witnesses/ demonstrate findings against the real macro; they decide nothing. seeded/ holds 277 independently written regressions (seven rounds; bin/seedsweep replays them, seeded/RESULTS.md is the last full replay); neutral/ holds 200 independently written behaviour-preserving refactorings (five rounds), 111 mechanical ones and my own variants, on which every check must stay silent (bin/neutralsweep)."
 )
 
 NOT_APPLICABLE = {}
